@@ -1,6 +1,6 @@
 """Must-pass-through / guard helpers over MIR bodies (F-MUST, F-WHO, F-DIAG)."""
 import re
-from collections import deque
+from collections import defaultdict, deque
 
 from mirlib import callee_name, callee_of, op_const, op_place, place_str
 
@@ -356,3 +356,27 @@ def resolve_matches(body, target):
         if v == val:
             return b
     return jt["otherwise"]
+
+
+def _root(name):
+    return re.sub(r"::\{closure#\d+\}", "", name)
+
+
+def owner_of(prog, name, hops=3):
+    """the function a body belongs to for who-may-do rules: closures belong to their function, and a private function
+    with a single caller (an extracted helper) belongs to that caller"""
+    if not hasattr(prog, "_callers"):
+        cs = defaultdict(set)
+        for n, tgts in prog.edges().items():
+            for t in tgts:
+                if t in prog.bodies and _root(t) != _root(n):
+                    cs[_root(t)].add(_root(n))
+        prog._callers = cs
+    cur = _root(name)
+    while hops > 0:
+        b = prog.bodies.get(cur)
+        if b is None or b.is_pub or b.impl_trait or len(prog._callers.get(cur, ())) != 1:
+            break
+        cur = next(iter(prog._callers[cur]))
+        hops -= 1
+    return cur
